@@ -95,6 +95,16 @@ func (l *RandomLayout) ArmBlockOnArrowLine() bool {
 	return b
 }
 
+func (l *RandomLayout) ArmOffset(lo int) int {
+	k := rapid.IntRange(lo, 4).Draw(l.T, "armOffset")
+	if k < 0 {
+		l.Kinds["match arms left of the match keyword (let right-hand side on the next line)"]++
+	} else if k > 0 {
+		l.Kinds["indented cases / arms"]++
+	}
+	return k
+}
+
 func (l *RandomLayout) RhsNextLine() bool {
 	b := l.n(2, "rhsNextLine") == 0
 	if b {
